@@ -195,9 +195,29 @@ def enc_default(d):
     return 999
 
 
+# explicit values a caller may pass that are easily confused with "not given"
+TAG_CODES = {"missing": 0, "false": 1, "true": 2, "empty": -11, "unchanged": -12, "none": -13, "zero": -14}
+SENTINEL_TAGS = ["missing", "empty", "unchanged", "none", "false", "zero"]
+
+
+def tag_object(tag):
+    from spec_classes.types import EMPTY, MISSING, UNCHANGED
+    return {"missing": MISSING, "false": False, "true": True, "empty": EMPTY, "unchanged": UNCHANGED,
+            "none": None, "zero": 0}[tag]
+
+
 def enc_value(v, inst):
+    from spec_classes.types import EMPTY, UNCHANGED
     if v is inst:
         return SELF
+    if v is EMPTY:
+        return TAG_CODES["empty"]
+    if v is UNCHANGED:
+        return TAG_CODES["unchanged"]
+    if v is None:
+        return TAG_CODES["none"]
+    if isinstance(v, int) and not isinstance(v, bool) and v == 0:
+        return TAG_CODES["zero"]
     d = enc_default(v)
     return 998 if d is None else d
 
@@ -269,10 +289,23 @@ def gen_calls(adv, extra_unadvertised):
         add([], [u])
         if named:
             add([], base + [x for x in [named[-1]] if x not in base] + [u])
+    # the VALUE must not matter for acceptance: unadvertised names carrying sentinel values
+    unadv = [u for u in UNADVERTISED[:1] + extra_unadvertised[:1] + ["bogus"] if u not in named][:2]
+    for u in unadv:
+        for t in SENTINEL_TAGS:
+            add([], base + [(u, t)])
+    if unadv and named:
+        add([], base + [x for x in [named[-1]] if x not in base] + [(unadv[0], "missing")])
+    # every advertised parameter given an explicit falsy value / sentinel (distinct from "not given")
+    for a in named:
+        rest = [x for x in base if x != a]
+        for t in ("false", "zero", "none", "missing"):
+            add([], rest + [(a, t)])
     # de-duplicate, drop repeated keywords
     seen, out = set(), []
     for pos, kws in calls:
-        if len(set(kws)) != len(kws):
+        names_ = [k[0] if isinstance(k, tuple) else k for k in kws]
+        if len(set(names_)) != len(names_):
             continue
         k = (tuple(pos), tuple(kws))
         if k not in seen:
@@ -312,7 +345,15 @@ def run_calls(f, inst, adv, calls):
             counter[0] += 1
             return counter[0]
         posv = [fresh() for _ in pos]
-        kwv = [(k, fresh()) for k in kws]
+        kwv, actual = [], {}
+        for k in kws:
+            if isinstance(k, tuple):
+                kwv.append((k[0], TAG_CODES[k[1]]))
+                actual[k[0]] = tag_object(k[1])
+            else:
+                v = fresh()
+                kwv.append((k, v))
+                actual[k] = v
         rec = []
 
         def spy(**kw):
@@ -321,7 +362,7 @@ def run_calls(f, inst, adv, calls):
         f.__globals__["implementation"] = spy
         try:
             try:
-                f(inst, *posv, **dict(kwv))
+                f(inst, *posv, **actual)
                 outcome = ("A", [(k, enc_value(v, inst)) for k, v in rec[0].items()] if rec else None)
             except BaseException as e:
                 if isinstance(e, (KeyboardInterrupt, SystemExit)):
@@ -334,7 +375,7 @@ def run_calls(f, inst, adv, calls):
             if outcome[1] is None:
                 outcome = ("R", -99)
             elif has_if:
-                kw2 = dict(kwv)
+                kw2 = dict(actual)
                 kw2["_if"] = False
                 before = state_of(inst)
                 try:
@@ -350,7 +391,7 @@ def run_calls(f, inst, adv, calls):
         # rejected: the same call on the real method must leave the receiver alone
         before = state_of(inst)
         try:
-            f(inst, *posv, **dict(kwv))
+            f(inst, *posv, **actual)
             same = False  # the real method accepted what the spied one refused
         except BaseException as e:
             if isinstance(e, (KeyboardInterrupt, SystemExit)):
@@ -518,6 +559,111 @@ def c_case(c, obs=None):
             f"{clist(c['obs'] if obs is None else obs, c_outcome)} {clist(c.get('effects', []), c_effect)}")
 
 
+# ------------------------------------------------------------------ control parameters of sequence element helpers
+TRI = [None, False, True]
+HELPER_TERM = {"with": "HWithItem", "update": "HUpdateItem", "transform": "HTransformItem", "without": "HWithoutItem"}
+_CTL_CLASSES = {}
+
+
+def ctl_classes():
+    if not _CTL_CLASSES:
+        from spec_classes import spec_class
+        for nm, T in (("int", typing.List[int]), ("str", typing.List[str])):
+            cls = type("Box" + nm, (), {"__annotations__": {"vals": T}})
+            _CTL_CLASSES[nm] = spec_class(bootstrap=True)(cls)
+    return _CTL_CLASSES
+
+
+def cval_obj(v):
+    return v[1] if v[0] == "i" else f"s{v[1]}"
+
+
+def cval_enc(o):
+    if isinstance(o, int) and not isinstance(o, bool):
+        return ("i", o)
+    if isinstance(o, str) and o[:1] == "s" and o[1:].lstrip("-").isdigit():
+        return ("s", int(o[1:]))
+    return ("i", -999)
+
+
+def c_cval(v):
+    return f"({'CI' if v[0] == 'i' else 'CS'} {cz(v[1])})"
+
+
+def ctl_generate():
+    """(helper, elem type, value, by_index, inplace, if, insert, index) — every advertised control
+    parameter not given / explicitly False / explicitly True, on List[int] (an int is an element and a
+    position) and List[str] (it is only a position)"""
+    out = []
+    vals = {"int": [("i", 0), ("i", 1), ("i", 2), ("i", 5), ("i", -1), ("s", 0)],
+            "str": [("s", 0), ("s", 7), ("i", 0), ("i", 1), ("i", 5), ("i", -1)]}
+    for et in ("int", "str"):
+        for h in ("without", "update", "transform"):
+            for v in vals[et]:
+                for bi in TRI:
+                    for ip in TRI:
+                        for cond in TRI:
+                            out.append({"h": h, "et": et, "v": v, "by_index": bi, "inplace": ip, "if": cond,
+                                        "insert": None, "index": "omitted"})
+        for idx in ("omitted", "none", 0, 1, 5, -1, -5):
+            for ins in TRI:
+                for ip in TRI:
+                    for cond in TRI:
+                        out.append({"h": "with", "et": et, "v": ("i", 55) if et == "int" else ("s", 55), "by_index": None,
+                                    "inplace": ip, "if": cond, "insert": ins, "index": idx})
+    return out
+
+
+def ctl_run(case):
+    cls = ctl_classes()[case["et"]]
+    init = [2, 0, 1] if case["et"] == "int" else ["s2", "s0", "s1"]
+    recv = cls(vals=list(init))
+    kw = {}
+    for name, key in (("_by_index", "by_index"), ("_inplace", "inplace"), ("_if", "if"), ("_insert", "insert")):
+        if case[key] is not None:
+            kw[name] = case[key]
+    if case["index"] != "omitted":
+        kw["_index"] = None if case["index"] == "none" else case["index"]
+    v = cval_obj(tuple(case["v"]))
+    new = 77 if case["et"] == "int" else "s77"
+    h = case["h"]
+    try:
+        if h == "without":
+            r = recv.without_val(v, **kw)
+        elif h == "update":
+            r = recv.update_val(v, new, **kw)
+        elif h == "transform":
+            r = recv.transform_val(v, (lambda x: x + 1000) if case["et"] == "int" else (lambda x: "s" + str(int(x[1:]) + 1000)), **kw)
+        else:
+            r = recv.with_val(v, **kw)
+        oc, res, same = 0, list(r.vals), r is recv
+    except BaseException as e:
+        if isinstance(e, (KeyboardInterrupt, SystemExit)):
+            raise
+        oc = -1 if isinstance(e, TypeError) else -2 if isinstance(e, ValueError) else -3 if isinstance(e, IndexError) else -8
+        res, same = [], False
+    return {"outcome": oc, "result": [cval_enc(x) for x in res], "recv": [cval_enc(x) for x in recv.vals], "same": same,
+            "error": None if oc == 0 else oc}
+
+
+def c_ccase(case, o):
+    tri = lambda b: copt(b, cbool)
+    init = [("i", 2), ("i", 0), ("i", 1)] if case["et"] == "int" else [("s", 2), ("s", 0), ("s", 1)]
+    idx = {"omitted": "IOmitted", "none": "INone"}.get(case["index"], None) or f"(IInt {cz(case['index'])})"
+    new = ("i", 77) if case["et"] == "int" else ("s", 77)
+    args = (f"(mkcargs {cbool(case['et'] == 'int')} {clist(init, c_cval)} {c_cval(tuple(case['v']))} {c_cval(new)} "
+            f"{tri(case['by_index'])} {tri(case['inplace'])} {tri(case['if'])} {tri(case['insert'])} {idx})")
+    return (f"mkccase {HELPER_TERM[case['h']]} {args} {cz(o['outcome'])} {clist(o['result'], c_cval)} "
+            f"{clist(o['recv'], c_cval)} {cbool(o['same'])}")
+
+
+def ctl_evaluate(cases, tag="ctl"):
+    obs = [ctl_run(c) for c in cases]
+    bad, logs = coq_eval("C17", PRELUDE + "From SC Require Import Deco.SeqCtl.\n", "check_ctl",
+                         [c_ccase(c, o) for c, o in zip(cases, obs)], shard=120, tag=tag, case_type="ccase")
+    return bad, logs, obs
+
+
 # ------------------------------------------------------------------ generation
 FIXED = [
     [{"name": "N", "attrs": [{"name": "p", "ty": "int", "form": "value", "default": 11},
@@ -666,6 +812,11 @@ def main(tier, replay=None):
 
     if replay:
         r = json.load(open(replay))
+        if "ctl" in r:
+            bad, logs, obs = ctl_evaluate([r["ctl"]], tag="rc")
+            print("replay:", "still failing code=%s" % bad[0][1] if bad else "passes now", logs)
+            print("observed now:", obs[0])
+            return 1 if bad else 0
         cases = cases_for(r["desc"], only=(r["cls"], r["method"]))
         # calls explained by an open known finding are not what a replay is about
         cases = [dict(c, obs=[o for o in c["obs"] if chk.match_known(call_sig(c, o, 2, 0)) is None]) for c in cases]
@@ -742,6 +893,27 @@ def main(tier, replay=None):
             if not again:
                 break
             code = again[0][1]
+    # control parameters of the sequence element helpers: observed outcome of the real methods
+    ctl = ctl_generate()
+    cbad, clogs, cobs = ctl_evaluate(ctl)
+    logs += clogs
+    creported = set()
+    for i, code in cbad:
+        cc, o = ctl[i], cobs[i]
+        explicit = sorted(k for k in ("by_index", "inplace", "if", "insert") if cc[k] is not None) + \
+            ([] if cc["index"] == "omitted" else ["index"])
+        sig = {"code": 2, "kind": "control_parameter", "helper": cc["h"], "elem": cc["et"],
+               "explicit": ",".join(explicit), "outcome": o["outcome"]}
+        key = json.dumps({k: sig[k] for k in ("helper", "explicit", "outcome")}, sort_keys=True)
+        if key in creported:
+            continue
+        creported.add(key)
+        if len(creported) > 8:
+            break
+        chk.violation(f"Box{cc['et']}.{cc['h']}_val: an advertised control parameter did not reach the behaviour with the value "
+                      f"given: args={ {k: v for k, v in cc.items() if v is not None and k not in ('h', 'et')} } "
+                      f"observed outcome={o['outcome']} result={o['result']} receiver={o['recv']} same_object={o['same']}",
+                      {"ctl": cc, "observed": o, "code": 2, "replay": "bin/check C17 --replay <this file>"}, sig=sig)
     for lg in logs:
         chk.violation("correspondence evaluation failed: " + lg[-500:], {"kind": "coq-eval", "log": lg}, no_input=True)
     kinds, acc, nparams = {}, {"accepted": 0, "rejected": 0}, {}
@@ -760,6 +932,8 @@ def main(tier, replay=None):
                            "disagreements": len(bad), "calls_attributed_to_known_findings": known_calls,
                            "method_kind_histogram": kinds, "call_outcomes": acc,
                            "advertised_parameter_count_histogram": nparams,
+                           "control_parameter_cases": len(ctl), "control_parameter_failures": len(cbad),
+                           "real_method_effect_calls": sum(len(c.get("effects", [])) for c in cases),
                            "with_nested_keywords": sum(1 for c in cases if c["nested"]),
                            "with_overflow_catch_all": sum(1 for c in cases if any(p[1] == "VarKw" for p in c["adv"]))},
         "evaluations": ncalls, "distinct_nontrivial": len(distinct),
